@@ -265,7 +265,8 @@ def run_c07(ctx):
     def gen():
         return ctx.tlc("YangLexerGen", "YangLexerGen.cfg", workers=8, timeout=800, heap="8g", data={"texts.ndjson": gp},
                        consts={"MaxLen": 3 if q else 4, "Variants": "{1, 2}" if q else "{1, 2, 3}", "NRand": 400 if q else 6000,
-                               "RandLen": 40 if q else 90, "Alphabet": ALPHABET, "NCatTexts": 40 if q else 120, "NCat": 400},
+                               "RandLen": 40 if q else 90, "Alphabet": ALPHABET, "NCatTexts": 40 if q else 120, "NCat": 400,
+                               "AliasWide": "FALSE" if q else "TRUE"},
                        extra=["-seed", str(ctx.seed)])
 
     # the same harness under the Go race detector (trusted observer of the two goroutines of a Parse call)
@@ -275,8 +276,10 @@ def run_c07(ctx):
     _, _, _, g, _ = par(mc, pin("YangLexerPinHang.cfg", "Temporal property ParserReturns was violated", "hang at the end of an unquoted word"),
                         pin("YangLexerPinLeak.cfg", "Temporal property NoLeak was violated", "lexer left blocked on its send"), gen, race_build)
     allfiles = vec_files(g["dir"])
-    catfile = [f for f in allfiles if f.endswith(("vec_300.ndjson", "vec_400.ndjson"))]     # untraced: concatenations, absurd arguments
-    files = [f for f in allfiles if not f.endswith(("vec_300.ndjson", "vec_400.ndjson"))]
+    # untraced: concatenations, absurd arguments, rules between statements (exits after the whole text was read), byte order mark
+    UNTRACED = ("vec_300.ndjson", "vec_400.ndjson", "vec_500.ndjson", "vec_700.ndjson")
+    catfile = [f for f in allfiles if f.endswith(UNTRACED)]
+    files = [f for f in allfiles if not f.endswith(UNTRACED)]
 
     def plain(binary, tag, vfiles, env=None, timeout=600):
         """run7 without trace; returns (vectors, results)"""
@@ -302,12 +305,18 @@ def run_c07(ctx):
     # suspects: (vector, signature, what, replay).  Nothing is reported before it has shown again in a solo run, except a
     # worker stopped by the Go runtime or by the race detector (GORACE=halt_on_error=1): that is not a matter of timing.
     suspects = []
-    for tag, vs, rs in (("long-and-absurd", cvecs, cres), ("race-detector", rvecs, rres)):
-        for v, r in zip(vs, rs):
+    KIND = {"vec_300.ndjson": "long-concatenations", "vec_400.ndjson": "absurd-argument", "vec_500.ndjson": "rule-between-statements (text read to its end)",
+            "vec_700.ndjson": "byte-order-mark"}
+    ckind = []
+    for f in catfile:
+        ckind += [KIND[os.path.basename(f)]] * len(read_ndjson(f))
+    for tag0, vs, rs in (("untraced", cvecs, cres), ("race-detector", rvecs, rres)):
+        for k, (v, r) in enumerate(zip(vs, rs)):
+            tag = tag0 if tag0 != "untraced" else ckind[k] if k < len(ckind) else "long-and-absurd"
             if r["verdict"] in ("ok", "skipped"):
                 continue
             sig = dict(site=tag, what=r["verdict"], ret=r["ret"])
-            what = f"Parse under {tag}: {r['verdict']} on {show(v['text'], 80)!r}"
+            what = f"Parse under {tag}: {r['verdict']} ({(r.get('err') or r.get('why') or '')[:160]}) on {show(v['text'], 80)!r}"
             replay = dict(kind=tag, text=v["text"][:4000], shown=show(v["text"], 600), result=r,
                           how="bin/check C07 (yp / ypt-race run7 on this text, GORACE=halt_on_error=1)")
             if r["verdict"] in ("crash", "data-race") and "worker silent" not in r.get("err", ""):
@@ -343,7 +352,7 @@ def run_c07(ctx):
                 out[i] = (c07_sig_trace(f), f"trace rejected: {f['what']} (lexer {f['where']}) on {show(v['text'], 80)!r}",
                           dict(kind="trace", text=v["text"], shown=show(v["text"]), failure=f, result=r))
             elif r["verdict"] not in ("ok", "skipped"):
-                out[i] = (c07_sig_replay(v, r), f"Parse: {r['verdict']} on {show(v['text'], 80)!r}",
+                out[i] = (c07_sig_replay(v, r), f"Parse: {r['verdict']} ({(r.get('err') or r.get('why') or '')[:160]}) on {show(v['text'], 80)!r}",
                           dict(kind="replay", text=v["text"], shown=show(v["text"]), result=r, lines=v["lines"]))
         return out
 
